@@ -98,7 +98,7 @@ func ruleSpecConstants(c *Ctx, r *Report, prefix string) {
 					if st, isSt := ins.(*ssa.Store); isSt {
 						if fa, isFA := st.Addr.(*ssa.FieldAddr); isFA && fa.X == g {
 							if k, isK := st.Val.(*ssa.Const); isK && k.Value != nil {
-								vals[fieldOfAddr(fa).Name()] = k.Value.ExactString()
+								vals[refNameOf(fieldOfAddr(fa))] = k.Value.ExactString()
 							}
 						}
 					}
@@ -162,7 +162,7 @@ func ruleSpecConstants(c *Ctx, r *Report, prefix string) {
 		for _, b := range theCtx.GB(fn) {
 			for _, ins := range b.Instrs {
 				if st, isSt := ins.(*ssa.Store); isSt {
-					if fa, isFA := st.Addr.(*ssa.FieldAddr); isFA && fieldOfAddr(fa).Name() == "nrange" {
+					if fa, isFA := st.Addr.(*ssa.FieldAddr); isFA && refNameOf(fieldOfAddr(fa)) == "nrange" {
 						if k, isK := constInt(st.Val); isK && k == 0xffffffff {
 							ok = true
 						}
@@ -592,7 +592,7 @@ func ruleDecoderReps(c *Ctx, r *Report, prefix string) {
 			if call, ok := x.Tuple.(*ssa.Call); ok && x.Index == 0 {
 				if cal := call.Call.StaticCallee(); cal != nil {
 					switch {
-					case cal.Name() == "Decode" && strings.Contains(FnName(cal), "distCodec"):
+					case refFuncName(cal) == "Decode" && strings.Contains(FnName(cal), "distCodec"):
 						s.sym[x] = "new"
 					}
 				}
@@ -602,30 +602,30 @@ func ruleDecoderReps(c *Ctx, r *Report, prefix string) {
 			if cal == nil {
 				return true
 			}
-			if updates[cal.Name()] {
-				s.upd = append(s.upd, cal.Name())
+			if updates[refFuncName(cal)] {
+				s.upd = append(s.upd, refFuncName(cal))
 			}
-			if cal.Name() == "Decode" && len(x.Call.Args) > 0 {
+			if refFuncName(cal) == "Decode" && len(x.Call.Args) > 0 {
 				// which model?
 				recv := x.Call.Args[0]
 				if ia, ok := recv.(*ssa.IndexAddr); ok {
-					if fa, ok := ia.X.(*ssa.FieldAddr); ok && probFields[fieldOfAddr(fa).Name()] {
-						s.pend = fieldOfAddr(fa).Name()
+					if fa, ok := ia.X.(*ssa.FieldAddr); ok && probFields[refNameOf(fieldOfAddr(fa))] {
+						s.pend = refNameOf(fieldOfAddr(fa))
 					}
 				}
 				if fa, ok := recv.(*ssa.FieldAddr); ok {
-					n := fieldOfAddr(fa).Name()
+					n := refNameOf(fieldOfAddr(fa))
 					if n == "lenCodec" || n == "repLenCodec" {
 						s.lens = append(s.lens, n)
 					}
 				}
 			}
-			if cal.Name() == "decodeLiteral" || cal.Name() == "Decode" && strings.Contains(FnName(cal), "literalCodec") {
+			if refFuncName(cal) == "decodeLiteral" || refFuncName(cal) == "Decode" && strings.Contains(FnName(cal), "literalCodec") {
 				s.lens = append(s.lens, "literal")
 			}
 		case *ssa.MakeInterface:
 			// the returned match{n, distance}: record the distance symbol
-			if x.X.Type().String() == modPath+"/lzma.match" {
+			if mt := c.Type("lzma", "match"); mt != nil && types.Identical(x.X.Type(), mt) {
 				// struct built in an alloc: find the store to field distance
 			}
 		}
@@ -661,7 +661,7 @@ func ruleDecoderReps(c *Ctx, r *Report, prefix string) {
 		}
 		// distance of the returned match
 		dist := "-"
-		if mi, ok := p.Resolve(ret.Results[0]).(*ssa.MakeInterface); ok && strings.HasSuffix(mi.X.Type().String(), "lzma.match") {
+		if mi, ok := p.Resolve(ret.Results[0]).(*ssa.MakeInterface); ok && c.Type("lzma", "match") != nil && types.Identical(mi.X.Type(), c.Type("lzma", "match")) {
 			dist = matchDistanceSym(p.Resolve(mi.X), s.sym, p)
 		}
 		key := strings.Join(s.bits, ",")
@@ -746,7 +746,7 @@ func matchDistanceSym(v ssa.Value, sym map[ssa.Value]string, p *PState) string {
 	}
 	for _, ref := range *al.Referrers() {
 		fa, ok := ref.(*ssa.FieldAddr)
-		if !ok || fieldOfAddr(fa).Name() != "distance" {
+		if !ok || refNameOf(fieldOfAddr(fa)) != "distance" {
 			continue
 		}
 		for _, r2 := range *fa.Referrers() {
@@ -814,7 +814,7 @@ func posMaskPaths(c *Ctx) []string {
 	walk = func(t *types.Struct, ca, cb *cell, path string, depth int) {
 		for i := 0; i < t.NumFields(); i++ {
 			f := t.Field(i)
-			p := path + f.Name()
+			p := path + refNameOf(f)
 			switch u := f.Type().Underlying().(type) {
 			case *types.Basic:
 				va, oka := ca.field(i).v.Int()
